@@ -571,6 +571,28 @@ var oracleC11 = oracle{
 				if parent == nil && twin.Tree.Get(hdr.RH(u.Header.PrevBlock)) == nil && ts.Class == st.Class {
 					return
 				}
+				// a MarkHeaderInvalid after a restart made the best chain fall back to one of several
+				// equal-work chains: which one is chosen there follows the order of the branch list,
+				// which a restart changes. The statement covers how submissions are treated (a
+				// submission that only ties never moves the tip: 57028d3), not which of equal chains a
+				// later marking falls back to; same verdict and equal work is conforming.
+				lastReload, markAfter := -1, false
+				for i, o := range c.hist {
+					if o.K == "reload" || o.K == "reloadd" {
+						if lastReload < 0 {
+							lastReload = i
+						}
+					} else if lastReload >= 0 && (o.K == "mark" || o.K == "markx" || o.K == "unmark") {
+						markAfter = true
+					}
+				}
+				if markAfter && ts.Class == st.Class {
+					a, b := twin.Tree.Get(hdr.RH(ts.PostTip)), c.w.Tree.Get(hdr.RH(st.PostTip))
+					if a != nil && b != nil && a.Work.Cmp(b.Work) == 0 {
+						c.count("equal_work_fallback_after_mark_differs_across_restart", 1)
+						return
+					}
+				}
 				c.fail("load-diverged", fmt.Sprintf("orig:%s|loaded:%s|tip-same:%t", normalize(ts.Class), normalize(st.Class), ts.PostTip == st.PostTip),
 					fmt.Sprintf("submission %s: original answers %q tip %s, loaded answers %q tip %s", st.Op.L, ts.Class, ts.PostTip, st.Class, st.PostTip))
 			}
